@@ -74,6 +74,18 @@ def canon(i):
             continue
         if isinstance(v, (int, str, bool, type(None))):
             extra[k] = v
+        elif isinstance(v, (list, tuple)) and len(v) < 64 and all(isinstance(x, (int, str, bool, type(None))) for x in v):
+            extra[k] = list(v)
+    # data attributes found on the class rather than the object (a mutable class-level list is shared by all instructions)
+    for k in dir(type(i)):
+        if k.startswith("_") or k in vars(i) or k in ("bytes", "mnemonic", "type", "spec", "operands", "misc", "address", "length"):
+            continue
+        try:
+            v = getattr(type(i), k)
+        except Exception:
+            continue
+        if isinstance(v, (list, tuple)) and len(v) < 64 and all(isinstance(x, (int, str, bool, type(None))) for x in v):
+            extra["class." + k] = list(v)
     d["attrs"] = extra
     try:
         d["misc"] = {str(k): str(v) for k, v in sorted(i.misc.items(), key=lambda kv: str(kv[0])) if v is not None}
